@@ -170,8 +170,9 @@ class MediaRequestBase(RequestHandlerBase):
                 mode, representation, timing, seg_num, seg_time)
             assert sn is not None
             seg_num = sn
-        except ValueError as err:
-            logging.warning('ValueError: %s', err)
+        except (ValueError, OverflowError) as err:
+            # a number or time too large for a timedelta lies outside every stream
+            logging.warning('%s: %s', type(err).__name__, err)
             return flask.make_response('Not Found', 404)
 
         assert mod_segment is not None
